@@ -61,6 +61,22 @@ func genC02(t *rapid.T) c02Case {
 		}
 		return c
 	}
+	if rapid.IntRange(0, 4).Draw(t, "directed2") == 0 {
+		// a leader is elected for a term in which nothing is published and is
+		// deposed again without a restart; the next leader writes messages that do
+		// not reach it and fails; the first one is elected again
+		c.Steps = []c02Step{
+			{Op: "publish", N: rapid.IntRange(1, 4).Draw(t, "n0"), Policy: 2}, {Op: "settle"},
+			{Op: "hold"}, {Op: "leader", X: 0, Sel: 0}, // b leads an empty term (a is alive, deposed)
+			{Op: "hold"}, {Op: "leader", X: 1, Sel: 0}, // c leads, b deposed without restart
+			{Op: "hold"}, {Op: "publish", N: rapid.IntRange(1, 2).Draw(t, "n1"), Policy: 1}, // reaches nobody
+			{Op: "crash", X: 100, Sel: 0}, {Op: "shrink", X: 100},
+			{Op: "leader", X: rapid.IntRange(0, 1).Draw(t, "again"), Sel: 0},
+			{Op: "publish", N: 1, Policy: 2}, {Op: "settle"}, {Op: "publish", N: 1, Policy: 2}, {Op: "settle"},
+			{Op: "restart", X: 100}, {Op: "settle"}, {Op: "publish", N: 1, Policy: 2}, {Op: "settle"},
+		}
+		return c
+	}
 	n := rapid.IntRange(4, 30).Draw(t, "nsteps")
 	for i := 0; i < n; i++ {
 		st := c02Step{X: rapid.IntRange(0, 2).Draw(t, "x"), Sel: rapid.IntRange(0, 5).Draw(t, "sel")}
@@ -234,7 +250,9 @@ func runC02(c c02Case, o *vfutil.Obs) *vfutil.Failure {
 	// ---- model of the committed metadata (what the controller has committed)
 	leader := "a"
 	isr := map[string]bool{"a": true, "b": true, "c": true}
+	heldBy := map[string]bool{} // replication paused on that replica (it looks dead to its followers)
 	held := false
+	_ = held
 	committed := map[int64]string{}   // offset -> value that must be served there forever
 	policyOf := map[string]int{}      // value -> ack policy it was published with
 	removedAt := map[string]time.Time{} // when a replica left the ISR
@@ -433,7 +451,7 @@ func runC02(c c02Case, o *vfutil.Obs) *vfutil.Failure {
 			w.hist = append(w.hist, fmt.Sprintf("publish(%d,%s)->%s", st.N, map[int]string{1: "LEADER", 2: "ALL"}[st.Policy], leader))
 			time.Sleep(time.Millisecond)
 		case "settle":
-			if held {
+			if heldBy[leader] {
 				continue
 			}
 			if !settle() {
@@ -456,17 +474,17 @@ func runC02(c c02Case, o *vfutil.Obs) *vfutil.Failure {
 			}
 			w.hist = append(w.hist, "settle")
 		case "hold":
-			if lp := leaderPart(); lp != nil && !held {
+			if lp := leaderPart(); lp != nil && !heldBy[leader] {
 				lp.pauseReplication()
-				held = true
+				heldBy[leader] = true
 				w.hist = append(w.hist, "hold")
 			}
 		case "release":
-			if lp := leaderPart(); lp != nil && held {
+			if lp := leaderPart(); lp != nil && heldBy[leader] {
 				lp.mu.Lock()
 				lp.pause = false
 				lp.mu.Unlock()
-				held = false
+				heldBy[leader] = false
 				w.hist = append(w.hist, "release")
 			}
 		case "crash":
@@ -488,9 +506,7 @@ func runC02(c c02Case, o *vfutil.Obs) *vfutil.Failure {
 			vfL1Close(n.s)
 			n.up = false
 			n.s = nil
-			if n.id == leader {
-				held = false
-			}
+			heldBy[n.id] = false
 			// a real crash leaves a HW checkpoint that is up to 5 s old: rewrite
 			// it with an earlier HW this incarnation had held
 			if len(n.hws) > 0 && st.Sel > 0 {
@@ -553,7 +569,7 @@ func runC02(c c02Case, o *vfutil.Obs) *vfutil.Failure {
 			if n == nil || n.id == leader || !isr[n.id] || leaderPart() == nil {
 				continue
 			}
-			if n.up && !held {
+			if n.up && !heldBy[leader] {
 				continue // the leader only shrinks a replica that is down or lagging
 			}
 			_, le := leaderPart().GetLeader()
@@ -597,9 +613,10 @@ func runC02(c c02Case, o *vfutil.Obs) *vfutil.Failure {
 		case "leader":
 			// the controller elects from the ISR, never the old leader, and only
 			// after the old leader has gone
-			if w.nodes[leader].up {
+			if w.nodes[leader].up && !heldBy[leader] {
 				continue
 			}
+			deposedAlive := w.nodes[leader].up
 			var cands []string
 			for _, id := range ids {
 				if isr[id] && id != leader && w.nodes[id].up {
@@ -630,8 +647,17 @@ func runC02(c c02Case, o *vfutil.Obs) *vfutil.Failure {
 			if err := w.propose(op, "leader", order); err != nil {
 				return vfutil.Failf("C02/apply-error", "step %d, history %v: %v", step, w.hist, err)
 			}
+			if deposedAlive {
+				o.Label("leader-deposed-while-alive")
+			}
 			leader = nl
-			held = false
+			// the test-only pause switch is per partition object: clear it on whoever leads now
+			if np := w.part(w.nodes[nl]); np != nil {
+				np.mu.Lock()
+				np.pause = false
+				np.mu.Unlock()
+			}
+			heldBy[nl] = false
 			leaderChanges++
 			w.hist = append(w.hist, fmt.Sprintf("leader(%s%s)", nl, map[bool]string{true: ",followers-first", false: ""}[st.Sel%2 == 1 && !vfutil.IsExcluded("c02-hw-truncation-fallback")]))
 		}
@@ -665,11 +691,11 @@ func runC02(c c02Case, o *vfutil.Obs) *vfutil.Failure {
 			w.hist = append(w.hist, "final-restart("+id+")")
 		}
 	}
-	if lp := leaderPart(); lp != nil && held {
+	if lp := leaderPart(); lp != nil && heldBy[leader] {
 		lp.mu.Lock()
 		lp.pause = false
 		lp.mu.Unlock()
-		held = false
+		heldBy[leader] = false
 	}
 	if leaderPart() != nil {
 		if settle() {
